@@ -32,6 +32,17 @@ YAML_TYPES = [('crystal', 'GroupOp'), ('crystalStars', 'PairState'), ('cluster',
 # attributes read only through guarded access (getattr default) or that hold results of a later
 # explicit computation are found automatically; frozen exemptions (attr, reason):
 EXEMPT_READS = {}
+# keys that are written for humans / other tools and deliberately not read back (reason)
+WRITER_ONLY_OK = {
+    'attr:type': 'class name tag, informational',
+    'attr:crystal': 'repr of the crystal; the crystal object is passed to the loader',
+    'attr:Lmax': 'class-level constant of the Taylor class',
+    'dataset-attr:pythonrep': 'repr of the crystal next to its YAML dump',
+    'crystal_lattice': 'redundant with crystal_yaml (kept for non-python readers)',
+    'crystal_basisarray': 'redundant with crystal_yaml', 'crystal_basisindex': 'redundant with crystal_yaml',
+    'crystal_chemistry': 'redundant with crystal_yaml',
+    '<pattern: coeffstr>': 'Taylor coefficients are read by iterating over the group items',
+}
 
 
 def run(model, rep, tier):
@@ -40,6 +51,9 @@ def run(model, rep, tier):
     rep.rule('loader-defines-attributes', 'attributes assigned on the constructor path and read by other methods are '
                                           'assigned on the loader path')
     rep.rule('reader-keys-subset-writer', 'every HDF5 key read by loadhdf5 is written by addhdf5')
+    rep.rule('written-keys-are-read', 'every HDF5 key addhdf5 writes is read back by loadhdf5 (documented metadata exempt)')
+    rep.rule('stored-value-unchanged', 'a loader statement that reads a dataset does not mix other attributes of the object into it')
+    rep.rule('parallel-arrays-reordered-together', 'key and value arrays of a converter are reordered by the same operations')
     rep.rule('subobject-pairing', 'X.addhdf5(create_group(K)) <-> obj.X = Class.loadhdf5(..., group[K])')
     rep.rule('ctor-loader-constants', 'constants assigned to one attribute by __init__ and loadhdf5 agree')
     rep.rule('cache-one-predicate', 'the *values caches are saved and restored under a single predicate each')
@@ -141,8 +155,16 @@ def _pair(model, rep, mname, cname):
                '' if ok else 'loadhdf5 reads key %r that addhdf5 never writes: KeyError (or silently skipped data) on reload' % k,
                engine='parity', qual='%s.loadhdf5' % cname)
     only_w = sorted(set(wk) - set(rk))
-    if only_w:
-        rep.note('%s writer-only keys (informational): %s' % (cname, ', '.join(only_w)))
+    for k in only_w:
+        if k in WRITER_ONLY_OK:
+            rep.note('%s writer-only key %s: %s' % (cname, k, WRITER_ONLY_OK[k]))
+            continue
+        rep.ob('written-keys-are-read', mod, wk[k], '%s writes %r' % (cname, k), False,
+               'addhdf5 stores %r but loadhdf5 never reads it back: the reloaded object rebuilds this piece some other way (or not at '
+               'all) and can differ from the saved one' % k, engine='parity', qual='%s.addhdf5' % cname)
+    for k in sorted(set(wk) & set(rk)):
+        rep.ob('written-keys-are-read', mod, wk[k], '%s key %r written and read' % (cname, k), True, nontrivial=False, engine='parity',
+               qual='%s.addhdf5' % cname)
     # the writer must iterate the same class tuples as the reader's setattr loop: every __HDF5list__ name written
     tup = parity.class_tuple(model, ci, '__HDF5list__')
     if tup:
@@ -178,6 +200,25 @@ def _pair(model, rep, mname, cname):
         rep.ob('subobject-pairing', mod, n, '%s written to group %r is restored by the loader' % (src, k), restored,
                '' if restored else 'sub-object %s is saved but never restored' % src, engine='parity',
                qual='%s.addhdf5' % cname)
+    # ---- a statement that reads a stored dataset rebuilds from that dataset alone
+    for st in walk_local(r):
+        if not isinstance(st, (ast.Assign, ast.AugAssign, ast.Expr)):
+            continue
+        v = st.value
+        reads_key = [x for x in ast.walk(v) if isinstance(x, ast.Subscript) and isinstance(x.value, ast.Name) and x.value.id == rgroup]
+        if not reads_key:
+            continue
+        if any(isinstance(c, ast.Call) and isinstance(c.func, ast.Attribute) and c.func.attr == 'loadhdf5' for c in ast.walk(v)):
+            continue  # sub-object loaders legitimately receive context objects
+        mixed = sorted({unparse(x) for x in ast.walk(v) if isinstance(x, ast.Attribute) and isinstance(x.value, ast.Name)
+                        and x.value.id == obj and isinstance(x.ctx, ast.Load)
+                        and not (isinstance(getattr(x, '_parent', None), ast.Attribute) and x._parent.attr == 'append')})
+        tgt = unparse(st.targets[0]) if isinstance(st, ast.Assign) else ''
+        mixed = [m for m in mixed if m != tgt and not tgt.startswith(m + '[')]
+        rep.ob('stored-value-unchanged', mod, st, '%s: %s' % (cname, unparse(st)[:110]), not mixed,
+               '' if not mixed else 'the value read from %s is combined with %s while being restored: what is loaded is not what was '
+                                    'saved (e.g. an index map applied a second time)' % (unparse(reads_key[0]), ', '.join(mixed)),
+               engine='parity', qual='%s.loadhdf5' % cname)
     # ---- constants
     init = ci.methods['__init__']
     cconst = _const_assigns(init, init.args.args[0].arg)
@@ -275,6 +316,15 @@ def _converter(model, rep, mname, wname, rname):
         n_ok = len(ret.value.elts) == len(params)
         rep.ob('converter-order', mod, ret, '%s returns %d values ; %s takes %d' % (wname, len(ret.value.elts), rname, len(params)),
                n_ok, '' if n_ok else 'arity mismatch between writer and reader', engine='tables')
+    # parallel arrays (all returned Names) must be reordered by the same operations
+    rnames = [unparse(e.args[0]) if isinstance(e, ast.Call) and e.args and isinstance(e.args[0], ast.Name) else unparse(e)
+              for e in rets[-1].value.elts]
+    locals_ = [nm for nm in rnames if nm.isidentifier()]
+    ops = {nm: _reorders(w, nm) for nm in locals_}
+    distinct = {tuple(v) for k, v in ops.items() if k in locals_[:2]}
+    rep.ob('parallel-arrays-reordered-together', mod, rets[-1], '%s: reordering of %s: %s' % (wname, locals_[:2], [ops[k] for k in locals_[:2]]),
+           len(distinct) <= 1, '' if len(distinct) <= 1 else 'one of the parallel arrays is reordered and the other is not: keys are paired '
+                                                              'with the values of other keys after reload', engine='tables')
     # element kinds: the writer docstring order is not available statically; use the reader's unpacking:
     # each reader parameter must be consumed in the role the writer produced it in.  Decided by name stems.
     ret = rets[-1]
@@ -284,6 +334,25 @@ def _converter(model, rep, mname, wname, rname):
     rep.ob('converter-order', mod, ret, '%s -> (%s) ; %s(%s)' % (wname, ', '.join(unparse(e) for e in ret.value.elts), rname,
                                                                 ', '.join(params)), ok,
            '' if ok else 'the reader takes its arguments in a different order than the writer returns them', engine='tables')
+
+
+def _reorders(fn, name):
+    """canonical list of reordering operations applied to local array ``name``: rebinding through a computed subscript,
+    sorting calls, reversed slices."""
+    ops = []
+    for n in walk_local(fn):
+        if isinstance(n, ast.Assign) and unparse(n.targets[0]) == name:
+            v = n.value
+            for x in ast.walk(v):
+                if isinstance(x, ast.Subscript) and unparse(x.value) == name and not isinstance(x.slice, (ast.Constant,)) \
+                        and not (isinstance(x.slice, ast.Slice) and x.slice.step is None):
+                    ops.append('index:' + unparse(x.slice).replace(name, 'A'))
+                if isinstance(x, ast.Call) and (dotted(x.func) or '').split('.')[-1] in ('sort', 'sorted', 'flip', 'roll', 'take', 'unique'):
+                    ops.append('call:' + unparse(x).replace(name, 'A'))
+        if isinstance(n, ast.Expr) and isinstance(n.value, ast.Call) and isinstance(n.value.func, ast.Attribute) \
+                and unparse(n.value.func.value) == name and n.value.func.attr in ('sort', 'reverse'):
+            ops.append('method:' + n.value.func.attr)
+    return ops
 
 
 def _stem(s):
